@@ -539,6 +539,26 @@ func v10pPickScenario() *vScenario {
 			return l
 		}
 		sc = &vScenario{leaves: []*vLeaf{sub("0", "description"), sub("1", "description"), subKey("0"), subKey("1"), vIfKeyLeaf("lo1")}, owners: []string{"A"}}
+	case 17:
+		// FOUR doublekey entries, two first-key values with two entries each, single owner: the
+		// renderers that enumerate list entries level by level (FilterChilds) see more than one
+		// node per key level
+		// (the second entry of each first-key value accompanies the first one with a fixed value,
+		// which keeps the universe at two free entries)
+		var ls []*vLeaf
+		for _, k1 := range []string{"x1", "z1"} {
+			first := v10pDkLeaf(k1, "y2", "mandato")
+			second := v10pDkLeaf(k1, "y3", "mandato")
+			second.tiedTo = first.id
+			second.enum = []string{"c"}
+			ls = append(ls, first, second)
+		}
+		for _, k1 := range []string{"x1", "z1"} {
+			for _, k2 := range []string{"y2", "y3"} {
+				ls = append(ls, v10pDkKeyLeaf(k1, k2, "key1", k1), v10pDkKeyLeaf(k1, k2, "key2", k2))
+			}
+		}
+		sc = &vScenario{leaves: ls, owners: []string{"A"}}
 	case 14:
 		// as 13 with a single owner
 		sc = &vScenario{leaves: []*vLeaf{vRangeLeaf(), vIfLeaf("lo1", "mtu", true), vIfKeyLeaf("lo1")}, owners: []string{"A"}}
@@ -547,6 +567,9 @@ func v10pPickScenario() *vScenario {
 	}
 	for i, l := range sc.leaves {
 		l.tag = "L" + string(rune('0'+i))
+		if i >= 10 {
+			l.tag = "M" + string(rune('0'+i-10))
+		}
 	}
 	return sc
 }
